@@ -97,6 +97,10 @@ else:
         # implementation satisfies the property on every cell, but the transcription disagrees with it
         ck.violation("model-mismatch", "model and implementation disagree although the property holds on all explored cells: " + M[:300],
                      {"mismatches": M[:3000]}, no_input=True)
+if ck.thorough():
+    okc, outc = ck.coqchk(["Verif.Props.C20"])
+    if not okc:
+        broken.append(("coqchk", outc[-2000:]))
 if broken and not ck.violations:
     ck.violation("obligation:" + broken[0][0], "proof obligation or tie no longer checks: %s (model-level counterexamples: %s)" % (broken[0][0], X),
                  {"broken": broken, "model_counterexamples": X}, no_input=True)
